@@ -658,7 +658,7 @@ def body_entry(g, f, loop):
     return starts[0] if len(starts) == 1 else None
 
 
-def stale_across_iterations(g, f, loop, var_id):
+def stale_across_iterations(g, f, loop, var_id, strict=False):
     """Mentions of local `var_id` inside the body of `loop` that can be reached from the start of an iteration without passing a
     (re)initialisation of it inside the body: a declaration that is not static / thread_local, or a plain assignment.  Such a
     mention sees what the previous iteration left behind.  Returns (list of points, None) or (None, reason)."""
@@ -675,4 +675,15 @@ def stale_across_iterations(g, f, loop, var_id):
     for p in strong:
         if p.n['k'] == 'binop':
             lhs_of_def |= set(f.subtree(p.n['lhs'])) | {p.n['lhs']}
+    # something an iteration leaves behind: a definition inside the body that is not such a (re)initialisation (an out-parameter
+    # call, a compound assignment, an increment) and from which the start of the next iteration is reachable without passing one
+    # (a flag that is reset at the *end* of every iteration is as fresh as one declared at the top)
+    strong_ids = {p.id for p in strong}
+    dirty = [p for p in g.points if p.f is f and p.n is not None and p.n['i'] in body and p.id not in strong_ids and
+             any(v == var_id for (v, _st, _x) in defs_in_node(f, p.n))]
+    carried = [d for d in dirty if start.id in g.reachable_from([q for (q, _l) in d.succ], avoid=strong)]
+    if not carried and not strict:
+        # (strict: the variable names an object that is mutated through aliases - handles, callbacks - so only a fresh object per
+        # iteration will do, whatever the definitions of the variable itself look like)
+        return [], None
     return [m for m in mentions if m.n['i'] not in lhs_of_def and not g.must_pass(m, strong, src=start)], None
